@@ -7,6 +7,7 @@
 //   run <start> <end|E> <utc> <sd> <ed> <init> <t0> <gaps>   -> n=<checks> s0=<first state> flips=<indices where the state changes|->
 //   runx <6 cfg fields> <init> <t0> <gaps>                   -> the same through create_schedule (or invalid | throw:<Class>)
 // gaps:  f:<n>:<gap>  n checks at a fixed distance |  r:<n>:<seed>:<maxgap>  distances 1 + (lcg >> 11) % maxgap  |  l:<d1>,<d2>,..  explicit distances (l:- = one check)
+#include <unistd.h>
 #include "vclock.hpp"
 #include "hcommon.hpp"
 #include <fix8/f8includes.hpp>
@@ -164,5 +165,6 @@ int main()
 		catch (std::exception&) { vclock::off(); out("throw:std"); continue; }
 		out(os.str());
 	}
-	return 0;
+	std::fflush(stdout);
+	_exit(0);
 }
